@@ -98,6 +98,17 @@ def translate_zmq():
     if not isinstance(fin.comparators[0], (ast.Tuple, ast.List, ast.Set)):
         raise TranslateError("recv: final-frame test is not a literal collection")
     out["rv_final_cmds"] = [const(e) for e in fin.comparators[0].elts]
+    # ---- message level constants
+    from ..translate import find_assign
+    delim = find_assign(tree, "DELIM")
+    out["zmq_delim"] = list(const(delim, (bytes,)))
+    kern = find_class(tree, "Kernel")
+    hk = find_func(kern, "housekeep_run")
+    kws = [k for c in walk_find(hk, lambda n: isinstance(n, ast.Call)) for k in c.keywords if k.arg == "identities"]
+    kw = one(kws, "identities= keyword in housekeep_run")
+    if not (isinstance(kw.value, ast.List) and len(kw.value.elts) == 1):
+        raise TranslateError("housekeep_run: stdout identities is not a one-element list")
+    out["zmq_stdout_ident"] = list(const(kw.value.elts[0], (bytes,)))
     return out
 
 
@@ -345,12 +356,140 @@ class RawStream(Stream):
                 "recv_lengths": [_frame_len(p) for p in obs.get("parts", [])]}
 
 
+REQ_TYPES = {
+    "execute_request": "RExecute", "kernel_info_request": "RKernelInfo", "complete_request": "RComplete",
+    "is_complete_request": "RIsComplete", "comm_info_request": "RCommInfo", "history_request": "RHistory",
+    "comm_open": "RComm", "comm_msg": "RComm", "comm_close": "RComm",
+}
+
+
+class SessionStream(Stream):
+    """sessions of shell requests (valid, corrupted, wrongly keyed) against the real Kernel"""
+
+    name = "session"
+    rule = ("sessions of 1-8 shell requests (execute with value/None/error/syntax-error/printing cells and store_history on/off, "
+            "kernel_info, complete, is_complete, comm_info, history, comm_*, unknown types; 1-2 identity frames) signed with the "
+            "session key, of which some are corrupted: wrong key, single-bit flips in identity/delimiter/signature/message frames, "
+            "dropped or truncated frames; fed as ZMTP bytes to the real shell_listen; every written byte is decoded independently; "
+            "non-trivial = session with >= 2 requests; distinct by request specs")
+    requires = "From PV Require Import Zmq.Framing Zmq.Shell Zmq.ShellCheck."
+    case_type = "scase"
+    check_model = "scase_model_ok"
+    check_spec = "scase_spec_ok"
+    explain = "scase_explain"
+    shard_size = 12
+
+    def budget(self, tier):
+        return 120 if tier == "quick" else 1500
+
+    def _cell(self, rng, k):
+        kind = rng.choice(["none", "none", "value", "value", "error", "syntax", "print", "printvalue"])
+        code = f"pv_log.append({k})"
+        nprint = 0
+        if kind in ("print", "printvalue"):
+            nprint = rng.randint(1, 3)
+            code += "".join(f"\nprint('line{j}')" for j in range(nprint))
+        if kind in ("value", "printvalue"):
+            code += f"\n{k} * 2 + 1"
+            outcome = "ExValue"
+        elif kind == "error":
+            code += rng.choice(["\n1/0", "\nundefined_name_xyz", "\n[][3]"])
+            outcome = "ExError"
+        elif kind == "syntax":
+            code += rng.choice(["\n((", "\nx = = 1", "\nfor in :"])
+            outcome = "ExSyntax"
+        else:
+            outcome = "ExNone"
+        return code, outcome, nprint
+
+    def _request(self, rng, k):
+        r = rng.random()
+        spec = {"nonce": rng.randrange(10**6), "ids": [[rng.randrange(256) for _ in range(rng.randint(1, 5))] for _ in range(rng.choice([1, 1, 2]))]}
+        if r < 0.5:
+            code, outcome, nprint = self._cell(rng, k)
+            content = {"code": code}
+            store = True
+            if rng.random() < 0.3:
+                store = rng.random() < 0.5
+                content["store_history"] = store
+            spec.update(msg_type="execute_request", content=content, outcome=outcome, stdout=nprint, store=store)
+        else:
+            t = rng.choice(["kernel_info_request", "complete_request", "is_complete_request", "comm_info_request", "history_request",
+                            "comm_open", "comm_msg", "weird_request"])
+            content = {}
+            if t == "complete_request":
+                content = {"code": "pv_lo", "cursor_pos": 5}
+            if t == "is_complete_request":
+                content = {"code": rng.choice(["x = 1", "if x:", "x = (", "for i in range(3):\n    "])}
+            spec.update(msg_type=t, content=content, outcome="ExNone", stdout=0, store=True)
+        return spec
+
+    def _corrupt(self, rng, spec):
+        r = rng.random()
+        nids = len(spec["ids"])
+        if r < 0.25:
+            spec["sign_key"] = "not-the-session-key"
+        elif r < 0.75:
+            spec["mutations"] = [["flip", rng.randrange(0, nids + 6), rng.randrange(0, 400), rng.randrange(8)]]
+        elif r < 0.85:
+            spec["mutations"] = [["drop", rng.randrange(0, nids + 6)]]
+        elif r < 0.95:
+            spec["mutations"] = [["trunc", rng.randrange(0, nids + 6)]]
+        else:
+            spec["extra_frames"] = [[1, 2, 3]]   # extra (signed) buffers are allowed by the wire protocol
+        return spec
+
+    def generate(self, ctx, budget, focus=None):
+        rng = ctx.rng
+        sessions = []
+        while len(sessions) < budget:
+            n = rng.choice([1, 2, 3, 4, 6, 8])
+            reqs = [self._request(rng, k + 1) for k in range(n)]
+            if rng.random() < 0.5:
+                i = rng.randrange(n)
+                reqs[i] = self._corrupt(rng, reqs[i])
+            sessions.append({"key": "k%08x" % rng.randrange(2**32), "reqs": reqs})
+        return sessions
+
+    def run_impl(self, ctx, cases):
+        chunks = split_chunks(cases, 8)
+        res = run_workers_parallel(ctx, "vh.workers.zmq_kernel", [{"sessions": c} for c in chunks])
+        return [o for r in res for o in r]
+
+    def to_coq(self, case, obs):
+        reqs = []
+        for spec, ro in zip(case["reqs"], obs["reqs"]):
+            reqs.append("{| r_wire := %s; r_json_ok := %s; r_type := %s; r_store := %s; r_outcome := %s; r_stdout := %s |}" % (
+                q.lst(q.bytes_N(f) for f in ro["wire"]), q.boolean(ro["json_ok"]), REQ_TYPES.get(spec["msg_type"], "RUnknown"),
+                q.boolean(spec["store"]), spec["outcome"], q.N(spec["stdout"])))
+        groups = []
+        for g in obs["groups"]:
+            groups.append(q.lst(
+                "(mkOut %s %s %s %s %s %s)" % (o["chan"], o["type"], q.lst(q.bytes_N(i) for i in o["ids"]), q.boolean(o["sig_ok"]),
+                                               q.boolean(o["parent_ok"]), q.option(q.N(o["count"]) if isinstance(o["count"], int) else None))
+                for o in g))
+        tbl = q.lst("(%s, %s)" % (q.lst(q.bytes_N(f) for f in fr), q.bytes_N(d)) for fr, d in obs["tbl"])
+        return "{| sc_tbl := %s; sc_reqs := %s; sc_obs := %s; sc_executed := %s |}" % (tbl, q.lst(reqs), q.lst(groups), q.N(obs["executed"]))
+
+    def nontrivial(self, case, obs):
+        return len(case["reqs"]) >= 2
+
+    def kind(self, case, obs):
+        bad = any(("sign_key" in r or "mutations" in r) for r in case["reqs"])
+        return ("corrupted" if bad else "valid") + f"/{len(case['reqs'])}req"
+
+    def describe(self, case, obs):
+        return {"requests": [{k: v for k, v in r.items() if k in ("msg_type", "content", "sign_key", "mutations", "store")} for r in case["reqs"]],
+                "observed_groups": [[(o["chan"], o["type"], o["sig_ok"], o["parent_ok"], o["count"]) for o in g] for g in obs["groups"]],
+                "executed": obs["executed"]}
+
+
 class C19(Prop):
     id = "C19"
     title = "Jupyter kernel: lossless framing, authenticated requests, correlated replies"
     coq_targets = ["Properties/C19.vo"]
     property_file = "Properties/C19.v"
-    streams = [FramingStream(), RawStream()]
+    streams = [FramingStream(), RawStream(), SessionStream()]
     trusted_base = [
         "modelled, not verified: ZmqSocket.read_bytes/recv/send/send_multipart (Zmq/Framing.v); asyncio.StreamReader.read(n) is "
         "modelled as 'at most n bytes of the first pending chunk, never empty before EOF'",
